@@ -69,9 +69,13 @@ func (e *Encoder) mapUpdate(in *ssa.MapUpdate, st *State, pc string) {
 	dk, ds, vk, vs := env.mapKeys(mt)
 	k, v := e.val(in.Key), e.val(in.Value)
 	curD, curV := st.get(c, dk, ds), st.get(c, vk, vs)
+	// what the entry held before this update (site assertions run after it: `prev`, `had`)
+	e.mapPrev = &Val{T: mt.Elem(), S: c.define("mprev", c.sortOf(mt.Elem()), fmt.Sprintf("(select (select %s %s) %s)", curV, m.S, k.S))}
+	e.mapHad = &Val{T: types.Typ[types.Bool], S: c.define("mhad", "Bool", fmt.Sprintf("(select (select %s %s) %s)", curD, m.S, k.S))}
 	st.mem[dk] = c.define("M_"+dk, ds, fmt.Sprintf("(store %s %s (store (select %s %s) %s true))", curD, m.S, curD, m.S, k.S))
 	st.mem[vk] = c.define("M_"+vk, vs, fmt.Sprintf("(store %s %s (store (select %s %s) %s %s))", curV, m.S, curV, m.S, k.S, v.S))
 	e.siteMapUpdate(in, st, pc)
+	e.mapPrev, e.mapHad = nil, nil
 }
 
 func (e *Encoder) mapDelete(m Val, mt *types.Map, k Val, st *State, pc string) {
